@@ -189,12 +189,28 @@ class Printer:
         for cond, blk in n[1]:
             head = "else" if cond is None else self.header_expr(cond) + " then"
             self.arm(head, blk, ind + 1)
+    def bare_tuple_text(self, e):
+        """`a, b` for a tuple of two or more simple elements (the parentheses are optional in an arm body)."""
+        if e[0] == "tuple" and len(e[1]) >= 2 and all(self.is_simple(x) and x[0] not in ("fn", "if", "pipe", "tuple") for x in e[1]) and self.flip("bare_tuple", 0.5):
+            self.no_break += 1
+            try:
+                return ", ".join(self.expr(x, 2) for x in e[1])
+            finally:
+                self.no_break -= 1
+        return None
     def arm(self, head, blk, ind):
         if len(blk) == 1 and self.is_simple(blk[0]) and not self.flip("arm_block", 0.4):
-            self.emit(head + " " + self.header_expr(blk[0], 1 if head == "else" else 0), ind)
+            bare = self.bare_tuple_text(blk[0])
+            self.emit(head + " " + (bare if bare is not None else self.header_expr(blk[0], 1 if head == "else" else 0)), ind)
         else:
             self.emit(head, ind, kind="arm")
-            self.block(blk, ind + 1)
+            bare = self.bare_tuple_text(blk[-1]) if blk else None
+            if bare is not None:
+                if len(blk) > 1:
+                    self.block(blk[:-1], ind + 1)
+                self.emit(bare, ind + 1)
+            else:
+                self.block(blk, ind + 1)
     def s_match(self, n, ind, prefix):
         self.emit(prefix + "match " + ", ".join(self.header_expr(s) for s in n[1]), ind, tag=n, kind="header")
         for alts, guard, blk in n[2]:
@@ -458,6 +474,6 @@ KEYWORDS = {"as", "and", "break", "catch", "continue", "debug", "else", "export"
 TRACE_PRELUDE = "t = |k, v|\n  print('T{k}')\n  v\n"
 
 TRIVIA_FREEDOMS = {"blank", "comment_line", "comment_eol", "comment_multi", "comment_inline", "trailing_ws", "crlf"}
-SPELLING_FREEDOMS = {"parens", "paren_free", "quotes", "numspell"}
+SPELLING_FREEDOMS = {"parens", "paren_free", "quotes", "numspell", "bare_tuple"}
 LAYOUT_FREEDOMS = {"if_block", "arm_block", "fn_block", "map_block", "break_binary", "args_lines", "list_lines", "chain_break"}
 ALL_FREEDOMS = TRIVIA_FREEDOMS | SPELLING_FREEDOMS | LAYOUT_FREEDOMS
